@@ -5,15 +5,20 @@
 (* joined at mutex unlock->lock and at the go statement), so that "two conflicting accesses to the   *)
 (* shared list that are not ordered" is a state predicate (race) - C08's data-race clause - next to  *)
 (* C11's functional property about what ends up in the result.                                     *)
+(* Design switches (expected-to-fail configurations): UseMutex = FALSE (the list is shared without   *)
+(* synchronisation), RearmWindow (every datagram re-arms the full timeout: an idle timeout instead   *)
+(* of an absolute window), HandOff (the reader hands each datagram to the caller over an unbuffered   *)
+(* channel and the caller stops receiving when the window ends: a reader holding a datagram then      *)
+(* blocks forever, closed socket or not - a goroutine leak, C09).                                    *)
 EXTENDS Integers, Sequences, FiniteSets, TLC
-CONSTANTS T, MaxDgrams, UseMutex
+CONSTANTS T, MaxDgrams, UseMutex, RearmWindow, HandOff
 \* threads
 M == "main"  R == "reader"
 Threads == {M, R}
 Classes == {"valid", "bad"}
 VARIABLES now, mpc, rpc, sockOpen, wire, sockq, replies, result, mu,
-          vc, muvc, goVC, lastW, lastRd, race, sent, local, arrived
-vars == <<now, mpc, rpc, sockOpen, wire, sockq, replies, result, mu, vc, muvc, goVC, lastW, lastRd, race, sent, local, arrived>>
+          vc, muvc, goVC, lastW, lastRd, race, sent, local, arrived, wakeAt, doneAt
+vars == <<now, mpc, rpc, sockOpen, wire, sockq, replies, result, mu, vc, muvc, goVC, lastW, lastRd, race, sent, local, arrived, wakeAt, doneAt>>
 
 Zero == [t \in Threads |-> 0]
 Leq(a, b) == \A t \in Threads : a[t] <= b[t]
@@ -21,9 +26,9 @@ Join(a, b) == [t \in Threads |-> IF a[t] >= b[t] THEN a[t] ELSE b[t]]
 Inc(v, t) == [v EXCEPT ![t] = @ + 1]
 
 Init == /\ now = 0 /\ mpc = "start" /\ rpc = "none" /\ sockOpen = FALSE /\ wire = {} /\ sockq = <<>>
-        /\ replies = <<>> /\ result = <<"none">> /\ mu = "free"
+        /\ replies = <<>> /\ result = <<>> /\ mu = "free"
         /\ vc = [t \in Threads |-> Inc(Zero, t)] /\ muvc = Zero /\ goVC = Zero
-        /\ lastW = Zero /\ lastRd = Zero /\ race = FALSE /\ sent = 0 /\ local = <<>> /\ arrived = <<>>
+        /\ lastW = Zero /\ lastRd = Zero /\ race = FALSE /\ sent = 0 /\ local = <<>> /\ arrived = <<>> /\ wakeAt = T /\ doneAt = -1
 
 \* conflicting-access bookkeeping for the shared variable `replies`
 WriteBy(t) == /\ race' = (race \/ ~Leq(lastW, vc[t]) \/ ~Leq(lastRd, vc[t]))
@@ -46,7 +51,7 @@ Arrive(d) == /\ d \in wire /\ d.at <= now /\ wire' = wire \ {d}
 \* reader
 RRead == /\ rpc = "reading" /\ sockOpen /\ sockq # <<>>
          /\ local' = <<Head(sockq)>> /\ sockq' = Tail(sockq)
-         /\ rpc' = IF UseMutex THEN "wantlock" ELSE "append"
+         /\ rpc' = IF HandOff THEN "handoff" ELSE IF UseMutex THEN "wantlock" ELSE "append"
          /\ UNCHANGED <<now, mpc, sockOpen, wire, replies, result, mu, vc, muvc, goVC, lastW, lastRd, race, sent>>
 RLock == /\ rpc = "wantlock" /\ mu = "free" /\ mu' = R /\ rpc' = "append"
          /\ vc' = [vc EXCEPT ![R] = Join(@, muvc)]
@@ -56,10 +61,14 @@ RAppend == /\ rpc = "append" /\ replies' = Append(replies, local[1]) /\ WriteBy(
                           ELSE UNCHANGED <<mu, muvc, vc>>
            /\ rpc' = "reading" /\ local' = <<>>
            /\ UNCHANGED <<now, mpc, sockOpen, wire, sockq, result, goVC, sent>>
+\* HandOff design: rendezvous with the caller, which appends (no shared memory) - but only while it is still receiving
+RHandOff == /\ HandOff /\ rpc = "handoff" /\ mpc = "sleeping"
+            /\ replies' = Append(replies, local[1]) /\ rpc' = "reading" /\ local' = <<>>
+            /\ UNCHANGED <<now, mpc, sockOpen, wire, sockq, result, mu, vc, muvc, goVC, lastW, lastRd, race, sent>>
 REnd == /\ rpc = "reading" /\ ~sockOpen /\ rpc' = "ended"
         /\ UNCHANGED <<now, mpc, sockOpen, wire, sockq, replies, result, mu, vc, muvc, goVC, lastW, lastRd, race, sent, local>>
 \* main wakes after T, reads the list, returns, closes the socket (deferred)
-Wake == /\ mpc = "sleeping" /\ now >= T /\ mpc' = IF UseMutex THEN "wantlock" ELSE "read"
+Wake == /\ mpc = "sleeping" /\ now >= wakeAt /\ mpc' = IF UseMutex THEN "wantlock" ELSE "read"
         /\ UNCHANGED <<now, rpc, sockOpen, wire, sockq, replies, result, mu, vc, muvc, goVC, lastW, lastRd, race, sent, local>>
 MLock == /\ mpc = "wantlock" /\ mu = "free" /\ mu' = M /\ mpc' = "read"
          /\ vc' = [vc EXCEPT ![M] = Join(@, muvc)]
@@ -71,16 +80,22 @@ MRead == /\ mpc = "read" /\ result' = replies /\ ReadBy(M)
          /\ UNCHANGED <<now, rpc, sockOpen, wire, sockq, replies, goVC, sent, local>>
 MClose == /\ mpc = "close" /\ sockOpen' = FALSE /\ mpc' = "done"
           /\ UNCHANGED <<now, rpc, wire, sockq, replies, result, mu, vc, muvc, goVC, lastW, lastRd, race, sent, local>>
-Urgent == \/ \E d \in wire : d.at <= now
+Urgent == \/ mpc = "start"                 \* the call starts at tick 0: ticks are relative to the request
+          \/ \E d \in wire : d.at <= now
           \/ (rpc = "reading" /\ sockOpen /\ sockq # <<>>) \/ rpc \in {"append"} \/ (rpc = "wantlock" /\ mu = "free")
-          \/ (mpc = "sleeping" /\ now >= T) \/ mpc \in {"read", "close"} \/ (mpc = "wantlock" /\ mu = "free")
-Tick == /\ ~Urgent /\ now < T + 2 /\ mpc # "done" /\ now' = now + 1
+          \/ (mpc = "sleeping" /\ now >= wakeAt) \/ (HandOff /\ rpc = "handoff" /\ mpc = "sleeping") \/ mpc \in {"read", "close"} \/ (mpc = "wantlock" /\ mu = "free")
+Tick == /\ ~Urgent /\ now < 2 * T + 2 /\ mpc # "done" /\ now' = now + 1
         /\ UNCHANGED <<mpc, rpc, sockOpen, wire, sockq, replies, result, mu, vc, muvc, goVC, lastW, lastRd, race, sent, local>>
 \* `arrived` is a history variable: the datagrams that reached the open socket, in arrival order, with the tick
-Next == \/ (Spawn \/ RRead \/ RLock \/ RAppend \/ REnd \/ Wake \/ MLock \/ MRead \/ MClose \/ Tick
-             \/ (\E cls \in Classes, at \in 0..(T+1) : at >= now /\ Answer(cls, at))) /\ UNCHANGED arrived
-        \/ \E d \in wire : Arrive(d) /\ arrived' = IF sockOpen THEN Append(arrived, [d |-> d, tick |-> now]) ELSE arrived
+\* history: `arrived`, `doneAt`; `wakeAt` is the end of the window (re-armed by every datagram in the RearmWindow design)
+Core == Spawn \/ RRead \/ RLock \/ RAppend \/ RHandOff \/ REnd \/ Wake \/ MLock \/ MRead \/ MClose \/ Tick
+        \/ (\E cls \in Classes, at \in 0..(2*T+1) : at >= now /\ Answer(cls, at))
+Next == \/ /\ Core /\ UNCHANGED arrived
+           /\ wakeAt' = (IF RearmWindow /\ (rpc = "reading" /\ rpc' # "reading" /\ rpc' # "ended") THEN now + T ELSE wakeAt)
+           /\ doneAt' = (IF mpc # "done" /\ mpc' = "done" THEN now ELSE doneAt)
+        \/ \E d \in wire : Arrive(d) /\ arrived' = (IF sockOpen THEN Append(arrived, [d |-> d, tick |-> now]) ELSE arrived) /\ UNCHANGED <<wakeAt, doneAt>>
 Spec == Init /\ [][Next]_vars
+FairSpec == Spec /\ WF_vars(Next)
 NoRace == ~race
 IsPrefixOf(a, b) == Len(a) <= Len(b) /\ \A i \in 1..Len(a) : a[i] = b[i]
 Arrivals == [i \in 1..Len(arrived) |-> arrived[i].d]
@@ -89,5 +104,10 @@ ResultSound == mpc = "done" => IsPrefixOf(result, Arrivals)
 \* C11 (complete): every datagram that arrived strictly inside the window is in the result
 \* (the end of the window is inherently fuzzy: a datagram arriving in tick T may or may not be included)
 ResultComplete == mpc = "done" => \A i \in 1..Len(arrived) : arrived[i].tick < T => i <= Len(result)
+\* C11 ("received before the timeout") / C09: the window is absolute - nothing that arrived after tick T is listed
+\* and the call is over by then (tick T itself is the fuzzy boundary)
+WindowAbsolute == mpc = "done" => (doneAt <= T /\ \A i \in 1..Len(result) : arrived[i].tick <= T)
+\* C09: once the call has returned the reader ends (FairSpec)
+ReaderQuits == (mpc = "done") ~> (rpc = "ended")
 ReaderStops == (mpc = "done" /\ rpc = "reading" /\ sockq = <<>>) => ~sockOpen
 =============================================================================
